@@ -303,6 +303,39 @@ def gen_single_point_case(rng, small=False):
         grids.append([gen_coord17(rng, c.t, d, cl)]); classes.append([cl])
     return Case(c.t, grids, small, classes, "single-point/" + c.kind)
 
+def gen_nodal_grid_case(rng, small=False):
+    """structured basis matrices: on at least one axis the grid has exactly as many points as the axis has coefficients and the
+    points sit where few basis functions are alive — the Greville / nodal points of an order-1 axis (each point sees one spline:
+    a diagonal basis matrix whose end values are not 1 when the end points lie in the margins), one point per knot span, points
+    exactly on consecutive knots; sorted (and sometimes reversed)"""
+    c = gen_case(rng, small=small, allow_repeated=False)
+    t = c.t
+    grids, classes = [], []
+    pick = rng.below(t.ndim)
+    for d in range(t.ndim):
+        k, o = t.knots[d], t.orders[d]
+        na = len(k) - o - 1
+        if d == pick or rng.chance(0.4):
+            how = rng.choice(["nodes", "nodes-margins", "spans", "knots"])
+            if how in ("nodes", "nodes-margins") :
+                g = [k[j + (o + 1) // 2] if o % 2 == 1 else 0.5 * (k[j + o // 2] + k[j + o // 2 + 1]) for j in range(na)]   # node of spline j
+                if how == "nodes-margins" and na >= 2:
+                    g[0] = k[0] + 0.25 * (k[o] - k[0]) if k[o] > k[0] else g[0]
+                    g[-1] = k[-1] - 0.25 * (k[-1] - k[na]) if k[-1] > k[na] else g[-1]
+            elif how == "spans":
+                g = [0.5 * (k[j] + k[j + 1]) for j in range(min(na, len(k) - 1))]
+            else:
+                j0 = rng.below(max(1, len(k) - na))
+                g = [k[j0 + j] for j in range(na)]
+            g = [x for x in g]
+            if rng.chance(0.2):
+                g = g[::-1]
+            grids.append(g); classes.append([how] * len(g))
+        else:
+            g, cl = gen_axis_grid(rng, t, d, rng.rint(1, 6))
+            grids.append(g); classes.append(cl)
+    return Case(t, grids, small, classes, "nodal-grid/" + c.kind)
+
 def gen_long_grid_case(rng, npts):
     """one axis with hundreds of abscissae (every knot, its float neighbours, a fine sweep of the range, points outside), the others short"""
     ndim = rng.choice([1, 1, 2, 2, 3])
@@ -782,6 +815,9 @@ class C17:
                 cases.append(gen_twin_case(r3, small=small))
         for i in range(max(6, n // 25)):
             cases.append(gen_single_point_case(r3, small=(i % 2 == 0)))
+        r4 = rng.fork("round4")
+        for i in range(max(12, n // 12)):
+            cases.append(gen_nodal_grid_case(r4, small=(i % 3 != 2)))
         for i in range(max(4, n // 40)):
             cases.append(gen_long_grid_case(r3, r3.choice([200, 400, 800, 1500]) if tier == "quick" else r3.choice([200, 400, 800, 1500, 3000])))
         return cases
